@@ -189,12 +189,17 @@ class FsIntrinsics(Intrinsics):
     def effect(self, eng, st, eff_term, prim, args, node):
         """record an attempt of a mutating primitive + its guard obligations"""
         g = (getattr(eng.cur_contract, 'guards', None) or {}).get(prim) or self.guards.get(prim)
+        if g is None and prim in ('remove', 'rmdir', 'rename', 'replace', 'rmtree', 'write_open'):
+            # C03: every destructive call site must carry a ghost precondition
+            eng.oblige(st, z3.BoolVal(False), 'guard', '%s.site-has-no-guard@L%s' % (prim, node.lineno),
+                       props=['C03'], line=node.lineno)
         if g is not None:
             for (label, f, props) in g(eng, st, args):
                 eng.oblige(st, f, 'guard', '%s.%s@L%s' % (prim, label, node.lineno), props=props,
                            line=node.lineno)
+        from contracts.shapes import log_append
         e = eng.gread(st, 'eff')
-        eng.gwrite(st, 'eff', z3.Concat(e, z3.Unit(eff_term)))
+        eng.gwrite(st, 'eff', log_append(e, eff_term))
 
     def lib_effects(self, call):
         f = call.func
@@ -206,9 +211,10 @@ class FsIntrinsics(Intrinsics):
                 name = f.attr
         elif isinstance(f, ast.Name):
             name = f.id
-        if name in ('mkdir', 'rmdir', 'remove', 'rename', 'replace', 'makedirs', 'rmtree',
-                    'mkdtemp'):
-            return {'fs_kind', 'eff', 'fs_epoch'}
+        if name == 'mkdtemp':
+            return {'fs_kind', 'eff', 'fs_epoch', 'mkdtemp_at'}
+        if name in ('mkdir', 'rmdir', 'remove', 'rename', 'replace', 'makedirs', 'rmtree'):
+            return {'fs_kind', 'eff', 'fs_epoch', 'rm_attempts'}
         if name in ('open',) and isinstance(f, ast.Attribute):
             return {'fs_kind', 'eff', 'fs_epoch'}
         return set()
@@ -321,6 +327,7 @@ class FsIntrinsics(Intrinsics):
         E = _effect()
         p = self.path(eng, st, pos[0], node)
         self.effect(eng, st, E.Rmdir(p), 'rmdir', [p], node)
+        eng.gwrite(st, 'rm_attempts', z3.Store(eng.gread(st, 'rm_attempts'), p, True))
         kind = self.kind(eng, st)
         outs = []
         s1 = st.fork()
@@ -478,6 +485,7 @@ class FsIntrinsics(Intrinsics):
         kind = self.kind(eng, st)
         st.assume(kind[p] == K_ABSENT)
         st.assume(z3.Function('is_temp_path', StrS, BoolS)(p))
+        eng.gwrite(st, 'mkdtemp_at', eng.gread(st, 'eff'))
         self.effect(eng, st, E.Mkdtemp(p), 'mkdtemp', [p], node)
         s1 = st.fork()
         eng.gwrite(s1, 'fs_kind', z3.Store(kind, p, K_DIR))
@@ -709,8 +717,16 @@ class FsIntrinsics(Intrinsics):
                               % eng.cur.qualname)
         self.record_callback_args(eng, base, f, pos, kws, starv, dstarv, node)
         hook(eng, base, f, pos, kws, starv, dstarv)
-        for g in ('fs_kind', 'eff', 'fs_epoch'):
+        e_before = eng.gread(base, 'eff')
+        for g in ('fs_kind', 'eff', 'fs_epoch', 'rm_attempts'):
             eng.gwrite(base, g, fresh('Gcb!' + g, eng.GHOST_SORTS[g]))
+        # the effect trace is a log: user code (through nested builder calls) only appends
+        from contracts.shapes import log_prefix
+        base.assume(log_prefix(e_before, eng.gread(base, 'eff')))
+        # nested callbacks run inside this one: the counter only grows
+        n1 = fresh('Gcb!ncalls', IntS)
+        base.assume(n1 >= eng.gread(base, 'ncalls'))
+        eng.gwrite(base, 'ncalls', n1)
         al = eng.gread(base, 'alloc')
         al2 = fresh('Gcb!alloc', al.sort())
         base.assume(al2 >= al)
